@@ -1003,6 +1003,17 @@ class SpacerToken(DiffToken):
     #     obj.trailing_whitespace = trailing_whitespace
     #     return obj
 
+    def __eq__(self, other):
+        # A spacer only ever matches another spacer, never a real word that
+        # happens to be spelled like one (e.g. the text "~EMPTY~").
+        return isinstance(other, SpacerToken) and super().__eq__(other)
+
+    def __ne__(self, other):
+        return not self.__eq__(other)
+
+    def __hash__(self):
+        return super().__hash__()
+
     def html(self):
         return ''
 
